@@ -49,7 +49,7 @@ chk('C05', 'translation_validation',
     'lag/bioavailability variants and all builder histories of length <=2 from 4 seeds) z3 decides, for all rate and '
     'amount values, that eqs, compartmental_matrix, amounts, names and zero_order_inputs describe the system the builder '
     'calls declared (harness-kept table keyed by compartment name): per-compartment balance, mass balance, M*A+u == eqs '
-    'in one order, conversion back, subs and dict round trip.',
+    'in one order, conversion back, subs (also of an amount function, with an amount-dependent rate) and dict round trip.',
     'Trusted: the harness table of declared flows; sympy->z3 translation; rates positive. n>3 (quick) and longer '
     'histories are outside the claim.',
     'z3 entrywise identities between pharmpy-produced ODE views and the declared graph',
@@ -59,8 +59,9 @@ chk('C16', 'model_checking',
     'The real transaction/snapshot/store_model/retrieve_model code runs under CrossHair over an in-memory file system; '
     'the crash point (before any of the first 30 file-system operations, torn writes included), the two stored models '
     'and the dataset sharing are symbolic. After restart: readers get a refusal or a complete entry, committed entries '
-    'are intact, every key that was not mid-transaction can be stored and retrieved. Annotations and log lines are '
-    'checked verbatim on symbolic strings.',
+    'are intact, every key that was not mid-transaction can be stored and retrieved. Up to 12 (14) models with pairwise '
+    'different datasets stored in sequence keep their own dataset files. Annotations and log lines are checked verbatim '
+    'on symbolic strings; the annotation read-modify-write is one exclusive critical section.',
     'Trusted: in-memory FS contract, token-level models of writers/ModelHash, serialised transactions (C15). '
     'Counterexamples are re-enacted on a real directory with real models and writers before being reported.',
     'symbolic execution (CrossHair+z3) of real protocol code with symbolic crash point over a model file system',
@@ -92,8 +93,8 @@ chk('C02', 'translation_validation',
     'DESIGN.md section 3 C02', 'E2')
 
 chk('C07', 'translation_validation',
-    'For corpus models and reachable variants x 12 refactorings (mu-referencing, declarative, cleanup, greekify, rename, '
-    'remove unused, join/split distributions, replace fixed thetas / non-random rvs, convert to generic, unload/load '
+    'For corpus and generated start models and reachable variants x 15 refactorings (mu-referencing, declarative, '
+    'cleanup, two compositions, greekify, rename of parameters / statement variables, simplify_expression, remove unused, join/split distributions, replace fixed thetas / non-random rvs, convert to generic, unload/load '
     'dataset) z3 decides for all inputs within parameter bounds that every commonly defined variable, every dA/dt and '
     'the dose attachments are unchanged up to the declared renaming; solve_ode_system by substitution into the ODE; '
     'prediction / gradient extractors against symbolic derivatives of the model function.',
@@ -138,8 +139,9 @@ chk('C12', 'other',
     'DESIGN.md section 3 C12', 'E1')
 
 chk('C08', 'translation_validation',
-    'Request sequences over the MFL feature alphabet (absorption, elimination, peripherals, transits, lag time; all of '
-    'length 1, length 2 within budget) run through the real setters from corpus models. z3 decides for all numeric '
+    'Request sequences over the MFL feature alphabet (absorption, elimination, peripherals, transits, lag time, '
+    'bioavailability; all of length 1 and 2, and all triples (c=v1, other category, c=v2) from an IV and an oral start '
+    'model) run through the real setters from corpus models. z3 decides for all numeric '
     'inputs that requesting a feature twice equals once and that undoing a feature restores the previous model function '
     '(statements, dA/dt matched by dynamics, dose attachments, unmatched parameters by position). The detector / '
     'other-category / totality clauses are finite concrete comparisons and are labelled so.',
@@ -157,7 +159,9 @@ chk('C09', 'translation_validation',
     'eps) of the named model and leave f unchanged; KA = 1/MAT, D1 = 2 MAT, transit rates n/MDT or (n+1)/MDT; removing '
     'an extension restores the previous model function.',
     'Trusted: templates written from the docstrings; lib/semeq.py; uninterpreted exp/log/pow with sound axioms and '
-    'numeric replay. IOV, time-varying/dtbs/weighted error models and BLQ are outside.',
+    'numeric replay. Also: add_iov neutral at eta 0 / remove_iov restores, IIV on RUV template, time-varying error '
+    'model, BLQ M3/M4 likelihood and SD, remove_iiv on existing / transformed etas, transit-count sequences. '
+    'dtbs/weighted error models are outside.',
     'z3 identities between real extension results and documented formulas',
     'DESIGN.md section 3 C09', 'E2')
 
@@ -167,9 +171,13 @@ chk('C03', 'other',
     'and the code that makes the round trip and frame conditions hold: the ignored-character tokenizer (<=3/4 chars), '
     'interleave_ignored / with_ignored_tokens on stand-in trees with symbolic token ranges (8 shapes), NMTranParser '
     'record splitting (<=4/5 chars), CodeRecord.update_statements + _index_statements_diff bookkeeping (<=2 statements '
-    'of 3), AttrTree edit helpers (<=3/4 children).',
-    'Partial: a grammar defect that needs more than 2-3 characters to show is NOT detected; update_source and the '
-    'per-record updaters, real statement printing and AbbreviatedRecordParser are outside. Trusted: lark.Token stand-in, '
+    'of 3, also statements owning two parse-tree nodes), AttrTree edit helpers (<=3/4 children), record-level edits of '
+    'streams with duplicate records; and at model level: control streams assembled from one variant per record slot '
+    '(10 slots, 2-4 variants, table-indexed) are read by the real Model.parse_model_from_string and code(update(M)) == T, '
+    'and after one edit (theta init, description, sigma init, a $PK statement) every unrelated record is preserved in order.',
+    'Partial: a grammar defect that needs more than 2-3 characters to show is NOT detected; model-level texts are the '
+    'stated slot table (solver enumerates it, real code runs concretely per entry); '
+    'real statement printing and AbbreviatedRecordParser are outside. Trusted: lark.Token stand-in, '
     'identity record parser in the splitting obligation, _statement_to_nodes stub, identity-equality Assignment subclass; '
     'counterexamples are re-evaluated with the real lark.Token / parsers.',
     'symbolic execution (CrossHair+z3) of real parser / CST code, bounded',
@@ -180,10 +188,13 @@ chk('C04', 'other',
     'common subsequence, sequences <=3), reorder_diff, update_thetas and update_random_variable_records over contract '
     'stubs of the record classes (every record layout and every keep/change/remove/add edit within k<=3: each record '
     'receives exactly its own parameters, unchanged records are returned as the same object), parameters_from_blocks / '
-    'rvs_from_blocks numbering incl. SAME (<=3 blocks), and a z3 integer lemma for triangular_root.',
-    'Text-level record surgery, numeric rendering, SD/CORR/CHOLESKY scales, name comments, $ABBR and IOV/SAME updates '
-    'are outside (contract stubs ThetaRecord/OmegaRecord). Reordering kept thetas/etas is outside the edit alphabet of '
-    'the property. One deviation region (omega inserted into a multi-item DIAGONAL record) is a known finding.',
+    'rvs_from_blocks numbering incl. SAME (<=3 blocks), a z3 integer lemma for triangular_root; and the REAL '
+    'ThetaRecord.update/remove and OmegaRecord.update/remove on tables of 15 (24) $THETA and 21 (33) $OMEGA/$SIGMA record '
+    'texts x edits: the independent reader nmref.parse_theta/parse_omega re-reads exactly the requested parameters, '
+    'pharmpy re-reads the same, a no-op edit is byte-identical, only the changed tokens are respelled.',
+    '$ABBR and IOV/SAME updates and the composition update_thetas -> real records at model level (beyond C02/C03) are '
+    'outside. Record texts are table-indexed (solver enumerates, real code runs concretely per entry). Reordering kept '
+    'thetas/etas is outside the edit alphabet of the property. Eight deviation regions are known findings.',
     'symbolic execution (CrossHair+z3) of real diff / record-update bookkeeping over contract stubs; z3 lemma',
     'DESIGN.md section 3 C04', 'E1')
 
@@ -204,7 +215,8 @@ chk('C17', 'other',
     'task rewriting: for <=4 (thorough 5) tasks with symbolic edge sets, symbolic int and short string static inputs and '
     'every subset of context-taking tasks, as_dask_dict evaluated by a small evaluator of the dask graph specification '
     'equals a topological evaluation of the declared graph (each task once, statics then predecessors in entry order); '
-    'add_task, insert_workflow (N:N, N:1, 1:N; N:M refused), replace_task and + keep exactly the declared tasks/edges.',
+    'add_task, insert_workflow (N:N, N:1, 1:N; N:M refused), replace_task and + keep exactly the declared tasks/edges; '
+    'task keys of two graphs are disjoint; value-equal tasks (same name, function, input) stay distinct tasks.',
     'Trusted: the dask graph-spec evaluator, deterministic uuid stand-in, networkx dict-factory rebinding (CrossHair), '
     'dispatcher stub; dask schedulers are trusted (counterexamples are replayed on dask.threaded.get). More tasks than '
     'the bound and tuple/list/Model static inputs are outside.',
@@ -229,7 +241,8 @@ chk('C19', 'other',
     'eligibility, deltas, competition ranking with shared ranks, failed candidates never above eligible ones, best = top '
     'eligible; plus z3 Real likelihoods passed through the real calculate_aic / calculate_bic (4 types) / lrt.test / '
     'p_value on 8 corpus models and compared with the documented formulas over independently counted parameters.',
-    'NOT claimed: float OFVs, pandas-bound strictness atoms, calculate_bic_penalty, and all bootstrap / cdd / simeval / '
+    'Per-class strictness atoms (rse_theta/omega/sigma, final_zero_gradient_*) run over a contract model of the pandas '
+    'Series operations. NOT claimed: float OFVs, numpy-bound strictness atoms, calculate_bic_penalty, and all bootstrap / cdd / simeval / '
     'shrinkage / delta-method statistics (numpy/pandas). Trusted: FakeNp/FakePd contract stubs, linear chi-square table.',
     'symbolic execution (CrossHair+z3) of real ranking code + z3 term equality for information criteria',
     'DESIGN.md section 3 C19', 'E1')
